@@ -24,6 +24,7 @@ fn main() {
         "c19" => { valmode::run_c19(&a); return }
         "c18v" => { valmode::run_c18v(&a); return }
         "c07e" => { valmode::run_c07e(&a); return }
+        "c09w" => { valmode::run_c09w(&a); return }
         "c14t" => { trackmode::run(&a); return }
         "c20" => { valmode::run_c20(&a); return }
         "tables" => { valmode::dump_tables(&a.out); return }
